@@ -32,6 +32,10 @@ pub enum Fault {
     ForceClientException,
     /// negotiated heartbeat 1 s, then the server falls silent
     MissedHeartbeats,
+    /// negotiated heartbeat 1 s; the transport stops accepting writes, the server closes the
+    /// connection (or provokes a client exception) and then falls silent without closing the
+    /// socket: the client cannot flush its answer, only the heartbeat deadline ends the wait
+    StalledClosingThenSilent { server_close: bool },
 }
 
 #[derive(Clone, Debug, Serialize, Deserialize, PartialEq)]
@@ -124,7 +128,7 @@ struct ChanReport {
 
 pub fn exec(c: &Case) -> Outcome {
     let nch = c.channels.len();
-    let hb = matches!(c.fault, Fault::MissedHeartbeats);
+    let hb = matches!(c.fault, Fault::MissedHeartbeats | Fault::StalledClosingThenSilent { .. });
     let ccfg = ClientCfg {
         heartbeat: if hb { 1 } else { 0 },
         ..Default::default()
@@ -401,6 +405,38 @@ pub fn exec(c: &Case) -> Outcome {
             sess.broker.call(|b, _| b.silent = true);
             want.push("MissedServerHeartbeats".into());
         }
+        Fault::StalledClosingThenSilent { server_close } => {
+            // nothing can be written any more; then the close / the offending frame; then silence
+            wire.set_budget(Some(0));
+            sess.broker.call(|b, _| b.silent = true);
+            if *server_close {
+                wire.push(encode(&AMQPFrame::Method(
+                    0,
+                    AMQPClass::Connection(Conn::Close(connection::Close {
+                        reply_code: 320,
+                        reply_text: "going away".into(),
+                        class_id: 0,
+                        method_id: 0,
+                    })),
+                )));
+                want.push("ServerClosedConnection { code: 320, message: \"going away\" }".into());
+            } else {
+                let f = AMQPFrame::Header(
+                    0,
+                    60,
+                    Box::new(AMQPContentHeader {
+                        class_id: 60,
+                        weight: 0,
+                        body_size: 1,
+                        properties: Default::default(),
+                    }),
+                );
+                wire.push(encode(&f));
+                want.push("ClientException".into());
+            }
+            // two things went wrong; either is a root cause
+            want.push("MissedServerHeartbeats".into());
+        }
     }
     let _ = base;
     // for a write fault the client must be writing: the connection thread opens channels until it fails
@@ -535,6 +571,7 @@ fn strat(_t: Tier) -> BoxedStrategy<Case> {
         10 => (any::<u16>(), crate::gen::short_string()).prop_map(|(code, text)| Fault::ServerClose { code, text }),
         8 => Just(Fault::ForceClientException),
         1 => Just(Fault::MissedHeartbeats),
+        1 => any::<bool>().prop_map(|server_close| Fault::StalledClosingThenSilent { server_close }),
     ];
     let act = prop_oneof![2 => Just(Activity::Idle), 3 => Just(Activity::BlockedCall), 3 => Just(Activity::Busy)];
     (proptest::collection::vec((0u8..=2, act), 1..=4), fault, prop::bool::weighted(0.25), any::<u64>())
